@@ -241,6 +241,16 @@ func TestC06Sequential(t *testing.T) {
 					// larger than the pooled connection's read buffer
 					c.Value = mkValue(rapid.Uint32Range(0, 99).Draw(t, "hugeSeed"), rapid.SampledFrom([]int{65000, 66000, 70000, 200000}).Draw(t, "hugeLen"))
 				}
+				if rapid.IntRange(0, 7).Draw(t, "fillsBuffer") == 0 {
+					// a request that fills the pooled connection's write buffer exactly (or misses
+					// by one byte, or fills it twice): header 24 + extras 8 + key + value
+					buf := int(cfg.Buf)
+					if buf == 0 {
+						buf = 65536
+					}
+					n := rapid.SampledFrom([]int{buf - 1, buf, buf, buf + 1, 2 * buf}).Draw(t, "requestBytes") - 32 - len(c.Key)
+					c.Value = mkValue(rapid.Uint32Range(0, 99).Draw(t, "fillSeed"), n)
+				}
 				c.Exptime = ttlOf(rapid.SampledFrom([]int{0, 1, 2, 5}).Draw(t, "ttl"), now)
 			case wire.Append, wire.Prepend:
 				c.Value = genValue(t, "val")
